@@ -371,6 +371,16 @@ func predRespTermNewer(name string) engine.Track {
 // ---------------------------------------------------------------------------
 
 func sMatch(c *Ctx, rule string) {
+	// what pipelineDecode reads as "the follower's answer" is a response object
+	// made for this one request: zero (Success=false) until the transport
+	// decodes the follower's reply into it. A recycled object still carries the
+	// previous reply's Success=true when the exchange fails (round-8 seed C05-O)
+	if pf := c.P.Fn("(*Raft).pipelineSend"); pf != nil {
+		for _, s := range c.P.CallsIn(pf, engine.Is("iface:AppendPipeline.AppendEntries")) {
+			d := c.P.Arg(s.Instr, 1)
+			c.Check(rule, "pipelineSend:fresh-response-object", c.P.InstrPos(s.Instr), "each pipelined request gets a freshly allocated AppendEntriesResponse", d == "new(AppendEntriesResponse)", "response argument = "+d, 1)
+		}
+	}
 	// callers of commitment.match
 	c.WhoMay(rule, "call (*commitment).match", c.P.CallsEverywhere(engine.Is("(*commitment).match")), map[string]string{
 		"(*Raft).dispatchLogs":       "leader counts itself after its own StoreLogs succeeded (S-DURABLE)",
